@@ -88,7 +88,7 @@ def run(tier, seed):
     standard_front(chk, 'Props/C09.v', extra_vo=('Model/Topology.v', 'Model/Report.v', 'Proofs/ReportP.v', 'Corr/TopoDriver.v'))
     rng = random.Random(seed)
     cases_extra = [dict(id=10 ** 6, seed=1, spec=KNOWN_PROBE)]
-    good, errs = stage_topo.run_junc(chk, rng, 80 if tier == 'quick' else 1000)
+    good, errs = stage_topo.run_junc(chk, rng, 80 if tier == 'quick' else 4000)
     g2, e2 = stage_topo._run_generic(chk, 'topo.junc', cases_extra, 'junc')
     for r in good + g2:
         o = r['obs']
